@@ -80,7 +80,13 @@ def make_classes(variant, log, refs):
                 note_init(self, kw)
                 for k, v in kw.items():
                     setattr(self, k, v)
-    return Box, Leaf
+    class Model:
+        """the root rule as a user class, too"""
+        def __init__(self, **kw):
+            note_init(self, kw)
+            for k, v in kw.items():
+                setattr(self, k, v)
+    return Box, Leaf, Model
 
 
 class Fault(Exception):
@@ -98,8 +104,11 @@ def run_path(c, case, variant, global_repo, allow_fault, allow_replace, fault_ki
         with open(os.path.join(tmpd, fn), 'w') as f:
             f.write(content)
     log, refs = [], []
-    Box, Leaf = make_classes(variant, log, refs)
-    mm = metamodel_from_str(GRAMMAR, classes=[Box, Leaf], global_repository=global_repo)
+    Box, Leaf, Model = make_classes(variant, log, refs)
+    # editor support on/off: with it textX stores more bookkeeping on the model objects
+    tools = c.branch(z3.Bool('textx_tools_support'))
+    mm = metamodel_from_str(GRAMMAR, classes=[Box, Leaf, Model], global_repository=global_repo,
+                            textx_tools_support=tools)
     calls = [0]
     fired = []
     replaced = []
@@ -164,6 +173,12 @@ def run_path(c, case, variant, global_repo, allow_fault, allow_replace, fault_ki
                 return r
             return None
         return p
+    # an earlier registration that the one below replaces: its processors must never run
+    def stale(obj):
+        log.append(('stale', type(obj).__name__, None, getattr(obj, 'name', None), (), id(obj)))
+        return None
+    mm.register_obj_processors({'Import': stale, 'Leaf': stale, 'INT': lambda v: 0})
+
     def match_proc(value):
         # processor of a match rule: runs during object-graph construction,
         # i.e. inside objects (user-class ones too) that are still being built
@@ -176,7 +191,7 @@ def run_path(c, case, variant, global_repo, allow_fault, allow_replace, fault_ki
         log.append(('modelproc', None, None, None, (), id(model)))
         point('model-processor')
     mm.register_model_processor(model_proc)
-    snapshot = {cls.__name__: dict(cls.__dict__) for cls in (Box, Leaf)}
+    snapshot = {cls.__name__: dict(cls.__dict__) for cls in (Box, Leaf, Model)}
     obs = {'case': case, 'variant': variant, 'global_repo': global_repo, 'fired': None, 'log': log}
     model = None
     try:
@@ -195,7 +210,7 @@ def run_path(c, case, variant, global_repo, allow_fault, allow_replace, fault_ki
         obs['log'] = list(log)
         # class state after the load
         diffs = []
-        for cls in (Box, Leaf):
+        for cls in (Box, Leaf, Model):
             before, after = snapshot[cls.__name__], dict(cls.__dict__)
             for k in set(before) | set(after):
                 if k == '_tx_obj_attrs':
@@ -263,8 +278,8 @@ def reload_equal(mm, tmpd, case, variant, global_repo):
     mm._model_processors = []
     r1 = load(mm)
     log, refs = [], []
-    Box, Leaf = make_classes(variant, log, refs)
-    mm2 = metamodel_from_str(GRAMMAR, classes=[Box, Leaf], global_repository=global_repo)
+    Box, Leaf, Model = make_classes(variant, log, refs)
+    mm2 = metamodel_from_str(GRAMMAR, classes=[Box, Leaf, Model], global_repository=global_repo)
     mm2.register_scope_providers({'*.*': P.PlainNameImportURI()})
     r2 = load(mm2)
     return r1 == r2 or ('different', r1, r2)
